@@ -246,15 +246,19 @@ structure Ord (H : List WOut) (w : WW) : Prop where
   ordered : (cbEvents (H ++ w.outs)).Pairwise Before
   bound : ∀ x ∈ cbEvents (H ++ w.outs), x.2 ≤ w.n.height
   latch : (true, w.n.height) ∈ cbEvents (H ++ w.outs) → ∃ t, w.n.term = some t ∧ t.committed.isSome = true
+  /-- an installed term's round has been reported -/
+  termRound : w.n.term.isSome = true → (false, w.n.height) ∈ cbEvents (H ++ w.outs)
+  /-- every commit callback's round has been reported -/
+  commitRound : ∀ h, (true, h) ∈ cbEvents (H ++ w.outs) → (false, h) ∈ cbEvents (H ++ w.outs)
 
 /-- effects without callbacks, same height, the latch of the installed term kept -/
 theorem Ord.quiet {H : List WOut} {w w' : WW} (l : List WOut) (ho : w'.outs = w.outs ++ l) (hl : cbEvents l = [])
-    (hh : w'.n.height = w.n.height)
+    (hh : w'.n.height = w.n.height) (hts : w'.n.term.isSome = w.n.term.isSome)
     (hterm : ∀ t, w.n.term = some t → t.committed.isSome = true → ∃ t', w'.n.term = some t' ∧ t'.committed.isSome = true)
     (h : Ord H w) : Ord H w' := by
   have he : cbEvents (H ++ w'.outs) = cbEvents (H ++ w.outs) := by
     rw [ho, ← List.append_assoc, cbEvents_append, hl, List.append_nil]
-  refine ⟨by rw [he]; exact h.ordered, by rw [he, hh]; exact h.bound, ?_⟩
+  refine ⟨by rw [he]; exact h.ordered, by rw [he, hh]; exact h.bound, ?_, by rw [he, hh, hts]; exact h.termRound, by rw [he]; exact h.commitRound⟩
   rw [he, hh]
   intro hm
   obtain ⟨t, ht, hc⟩ := h.latch hm
@@ -341,13 +345,14 @@ theorem installTerm_cbEvents (w : WW) (h : Nat) (c : Bool) :
 
 /-- after `installTerm` at a node whose height was just raised to `h`, above every callback made -/
 theorem installTerm_ord {H : List WOut} (w : WW) (h : Nat) (c : Bool)
-    (hp : (cbEvents (H ++ w.outs)).Pairwise Before) (hab : ∀ x ∈ cbEvents (H ++ w.outs), x.2 < h) (hh : w.n.height = h) :
+    (hp : (cbEvents (H ++ w.outs)).Pairwise Before) (hab : ∀ x ∈ cbEvents (H ++ w.outs), x.2 < h) (hh : w.n.height = h)
+    (hcr : ∀ h', (true, h') ∈ cbEvents (H ++ w.outs) → (false, h') ∈ cbEvents (H ++ w.outs)) :
     Ord H (installTerm w h c) := by
   obtain ⟨l, el, ql⟩ := installTerm_cbEvents w h c
   have hheight : (installTerm w h c).n.height = h := by rw [C14.installTerm_height]; exact hh
   have he : cbEvents (H ++ (installTerm w h c).outs) = cbEvents (H ++ w.outs) ++ [(false, h)] := by
     rw [el, ← List.append_assoc, cbEvents_append, ql]
-  refine ⟨?_, ?_, ?_⟩
+  refine ⟨?_, ?_, ?_, ?_, ?_⟩
   · rw [he]; exact pairwise_snoc_above hp hab
   · rw [he, hheight]
     intro x hx
@@ -359,6 +364,14 @@ theorem installTerm_ord {H : List WOut} (w : WW) (h : Nat) (c : Bool)
     exfalso
     rcases List.mem_append.mp hm with hm | hm
     · exact Nat.lt_irrefl _ (hab _ hm)
+    · simp only [List.mem_singleton, Prod.mk.injEq] at hm; cases hm.1
+  · rw [he, hheight]
+    intro _
+    exact List.mem_append_right _ (List.mem_singleton.mpr rfl)
+  · rw [he]
+    intro h' hm
+    rcases List.mem_append.mp hm with hm | hm
+    · exact List.mem_append_left _ (hcr h' hm)
     · simp only [List.mem_singleton, Prod.mk.injEq] at hm; cases hm.1
 
 /-- what handing a message to the term does, in terms of the term-level handler -/
@@ -406,7 +419,10 @@ theorem Ord.commit {H : List WOut} {w : WW} (b : Block) (ref : BlockRef) (signer
   have he : cbEvents (H ++ (w.emit (.commitCb b ref signers)).outs) = cbEvents (H ++ w.outs) ++ [(true, w.n.height)] := by
     show cbEvents (H ++ (w.outs ++ [WOut.commitCb b ref signers])) = _
     rw [← List.append_assoc, cbEvents_append, ← href]; rfl
-  refine ⟨?_, ?_, ?_⟩
+  have hround : (false, w.n.height) ∈ cbEvents (H ++ w.outs) := by
+    obtain ⟨t, ht, _⟩ := hterm
+    exact ho.termRound (by rw [ht]; rfl)
+  refine ⟨?_, ?_, ?_, ?_, ?_⟩
   · rw [he]; exact pairwise_snoc_commit ho.ordered ho.bound hno
   · rw [he]
     intro x hx
@@ -414,6 +430,15 @@ theorem Ord.commit {H : List WOut} {w : WW} (b : Block) (ref : BlockRef) (signer
     · exact ho.bound x hx
     · simp only [List.mem_singleton] at hx; subst hx; exact Nat.le_refl _
   · intro _; exact hterm
+  · rw [he]
+    intro _
+    exact List.mem_append_left _ hround
+  · rw [he]
+    intro h' hm
+    rcases List.mem_append.mp hm with hm | hm
+    · exact List.mem_append_left _ (ho.commitRound h' hm)
+    · simp only [List.mem_singleton, Prod.mk.injEq] at hm
+      rw [hm.2]; exact List.mem_append_left _ hround
 
 /-- the worker invariant of `C08` after handing a message of the node's height to the term -/
 theorem handInTerm_inv {TI : Term.Node → Prop} (hT : C08.TermInv TI) (w : WW) (t : Term.Node) (m : Message)
@@ -461,7 +486,7 @@ theorem handInTerm_ord {H : List WOut} (w : WW) (t : Term.Node) (m : Message) (h
   have he : cbEvents (H ++ (handInTerm w t m).1.outs) = cbEvents (H ++ w.outs) := by
     rw [o1, ← List.append_assoc, cbEvents_append, cbEvents_term, List.append_nil]
   have ho1 : Ord H (handInTerm w t m).1 := by
-    refine Ord.quiet _ o1 (cbEvents_term _) s3 ?_ ho
+    refine Ord.quiet _ o1 (cbEvents_term _) s3 (by rw [s5, ht]; rfl) ?_ ho
     intro t0 ht0 hc0
     rw [ht] at ht0
     simp only [Option.some.injEq] at ht0
@@ -524,7 +549,7 @@ theorem newRound_ord {TI : Term.Node → Prop} (hT : C08.TermInv TI) {H : List W
     dsimp only
     split
     · split
-      · exact Ord.quiet (w := w) [] (by simp) rfl rfl (fun t ht hc => ⟨t, ht, hc⟩) ho
+      · exact Ord.quiet (w := w) [] (by simp) rfl rfl rfl (fun t ht hc => ⟨t, ht, hc⟩) ho
       · rename_i hge
         have hlt : w.n.height < wrap64 (prevH + 1) := by
           have : ¬ (w.n.height ≥ wrap64 (prevH + 1)) := hge
@@ -532,7 +557,7 @@ theorem newRound_ord {TI : Term.Node → Prop} (hT : C08.TermInv TI) {H : List W
         have hab : ∀ x ∈ cbEvents (H ++ w.outs), x.2 < wrap64 (prevH + 1) := fun x hx => Nat.lt_of_le_of_lt (ho.bound x hx) hlt
         have o1 := installTerm_ord (H := H)
           ({ w with n := { ({ w with n := { w.n with reg := (Contexts.step w.n.reg (.for_ ⟨wrap64 (prevH + 1), 0⟩)).1 } } : WW).n with height := wrap64 (prevH + 1) } } : WW)
-          (wrap64 (prevH + 1)) c ho.ordered hab rfl
+          (wrap64 (prevH + 1)) c ho.ordered hab rfl ho.commitRound
         obtain ⟨j1, j2, j3, j4⟩ := C08.installTerm_inv hT
           ({ w with n := { ({ w with n := { w.n with reg := (Contexts.step w.n.reg (.for_ ⟨wrap64 (prevH + 1), 0⟩)).1 } } : WW).n with height := wrap64 (prevH + 1) } } : WW)
           (wrap64 (prevH + 1)) c hi.cache rfl
@@ -543,8 +568,8 @@ theorem newRound_ord {TI : Term.Node → Prop} (hT : C08.TermInv TI) {H : List W
           have := j1.cache p hp m hmp
           rw [hp1] at this; exact this
         have o2 := drain_ord hT fuel w1 (wrap64 (prevH + 1)) _ j1 hmsgs o1
-        exact Ord.quiet (w := drain fuel w1 (wrap64 (prevH + 1)) (cacheGet w1.n.cache (wrap64 (prevH + 1)))) [] (by simp) rfl rfl (fun t ht hc => ⟨t, ht, hc⟩) o2
-    · exact Ord.quiet (w := w) [] (by simp) rfl rfl (fun t ht hc => ⟨t, ht, hc⟩) ho
+        exact Ord.quiet (w := drain fuel w1 (wrap64 (prevH + 1)) (cacheGet w1.n.cache (wrap64 (prevH + 1)))) [] (by simp) rfl rfl rfl (fun t ht hc => ⟨t, ht, hc⟩) o2
+    · exact Ord.quiet (w := w) [] (by simp) rfl rfl rfl (fun t ht hc => ⟨t, ht, hc⟩) ho
 theorem drain_ord {TI : Term.Node → Prop} (hT : C08.TermInv TI) {H : List WOut} :
     ∀ (fuel : Nat) (w : WW) (height : Nat) (ms : List Message), C08.WInv TI w.n →
     (∀ m ∈ ms, C08.MsgOK w.n.me w.n.inst height m) → Ord H w → Ord H (drain fuel w height ms)
@@ -582,7 +607,7 @@ theorem drain_ord {TI : Term.Node → Prop} (hT : C08.TermInv TI) {H : List WOut
             split
             · rename_i sp _
               have osp : Ord H { (w1.emit (.commitCb b (proofOf cs).1 (proofOf cs).2)) with spi := sp } :=
-                Ord.quiet (w := w1.emit (.commitCb b (proofOf cs).1 (proofOf cs).2)) [] (by simp) rfl rfl (fun t ht hc => ⟨t, ht, hc⟩) oemit
+                Ord.quiet (w := w1.emit (.commitCb b (proofOf cs).1 (proofOf cs).2)) [] (by simp) rfl rfl rfl (fun t ht hc => ⟨t, ht, hc⟩) oemit
               obtain ⟨n1, n2, n3⟩ := C08.newRound_inv hT fuel { (w1.emit (.commitCb b (proofOf cs).1 (proofOf cs).2)) with spi := sp } b.height true hemit
               have o2 := newRound_ord hT (H := H) fuel { (w1.emit (.commitCb b (proofOf cs).1 (proofOf cs).2)) with spi := sp } b.height true hemit osp
               generalize newRound fuel { (w1.emit (.commitCb b (proofOf cs).1 (proofOf cs).2)) with spi := sp } b.height true = w2 at n1 n2 n3 o2 ⊢
@@ -591,7 +616,7 @@ theorem drain_ord {TI : Term.Node → Prop} (hT : C08.TermInv TI) {H : List WOut
               exact drain_ord hT fuel w2 height rest n1 (by rw [e1, e2]; exact hrest) o2
             · rename_i sp _
               have osp : Ord H { (w1.emit (.commitCb b (proofOf cs).1 (proofOf cs).2)) with spi := sp } :=
-                Ord.quiet (w := w1.emit (.commitCb b (proofOf cs).1 (proofOf cs).2)) [] (by simp) rfl rfl (fun t ht hc => ⟨t, ht, hc⟩) oemit
+                Ord.quiet (w := w1.emit (.commitCb b (proofOf cs).1 (proofOf cs).2)) [] (by simp) rfl rfl rfl (fun t ht hc => ⟨t, ht, hc⟩) oemit
               exact drain_ord hT fuel { (w1.emit (.commitCb b (proofOf cs).1 (proofOf cs).2)) with spi := sp } height rest hemit hrest1 osp
             · exact drain_ord hT fuel (w1.emit (.commitCb b (proofOf cs).1 (proofOf cs).2)) height rest hemit hrest1 oemit
 end
@@ -612,8 +637,14 @@ theorem deliver_ord {TI : Term.Node → Prop} (hT : C08.TermInv TI) {H : List WO
         have hok : C08.MsgOK w.n.me w.n.inst (msgHeight m) m :=
           ⟨by simpa using hin, rfl, by simpa using hs⟩
         split
-        · refine Ord.quiet (w := w) [] (by simp) rfl ?_ ?_ ho
+        · refine Ord.quiet (w := w) [] (by simp) rfl ?_ ?_ ?_ ho
           · show (pushToCache w.n m).height = w.n.height
+            unfold pushToCache
+            dsimp only
+            split
+            · rfl
+            · split <;> rfl
+          · show (pushToCache w.n m).term.isSome = w.n.term.isSome
             unfold pushToCache
             dsimp only
             split
@@ -642,7 +673,7 @@ theorem election_ord {H : List WOut} (w : WW) (h v : Nat) (ho : Ord H w) : Ord H
     · exact ho
     · obtain ⟨_, _, _, m1, _, _⟩ := election_cb { n := { t with reg := w.n.reg }, spi := (termSpis w.spi).1 } h v
       refine Ord.quiet (w := w) _ (show _ = w.outs ++ (Term.election { n := { t with reg := w.n.reg }, spi := (termSpis w.spi).1 } h v).outs.map WOut.term from rfl)
-        (cbEvents_term _) rfl ?_ ho
+        (cbEvents_term _) rfl (by rw [ht]; rfl) ?_ ho
       intro t0 ht0 hc0
       rw [ht] at ht0
       simp only [Option.some.injEq] at ht0
@@ -660,21 +691,21 @@ theorem updateState_ord {TI : Term.Node → Prop} (hT : C08.TermInv TI) {H : Lis
 theorem step_ord {TI : Term.Node → Prop} (hT : C08.TermInv TI) {H : List WOut} (fuel : Nat) (n : WNode) (e : WEvent)
     (spi : List WSpi) (hi : C08.WInv TI n) (ho : Ord H { n := n }) :
     Ord (H ++ (Worker.step fuel n e spi).2) { n := (Worker.step fuel n e spi).1 } := by
-  have h0 : Ord H { n := n, spi := spi } := ⟨ho.ordered, ho.bound, ho.latch⟩
+  have h0 : Ord H { n := n, spi := spi } := ⟨ho.ordered, ho.bound, ho.latch, ho.termRound, ho.commitRound⟩
   have key : ∀ (w' : WW), Ord H w' → Ord (H ++ w'.outs) { n := w'.n } := by
     intro w' h
     have he : cbEvents ((H ++ w'.outs) ++ ({ n := w'.n } : WW).outs) = cbEvents (H ++ w'.outs) := by
       show cbEvents ((H ++ w'.outs) ++ []) = _
       rw [List.append_nil]
-    exact ⟨by rw [he]; exact h.ordered, by rw [he]; exact h.bound, by rw [he]; exact h.latch⟩
+    exact ⟨by rw [he]; exact h.ordered, by rw [he]; exact h.bound, by rw [he]; exact h.latch, by rw [he]; exact h.termRound, by rw [he]; exact h.commitRound⟩
   unfold Worker.step
   dsimp only
   cases e with
   | deliver m => exact key _ (deliver_ord hT fuel _ m hi h0)
   | election h v => exact key _ (election_ord _ h v h0)
   | update bh => exact key _ (updateState_ord hT fuel _ bh hi h0)
-  | cancelOlder h v => exact key _ (Ord.quiet (w := { n := n, spi := spi }) [] (by simp) rfl rfl (fun t ht hc => ⟨t, ht, hc⟩) h0)
-  | shutdownCtx => exact key _ (Ord.quiet (w := { n := n, spi := spi }) [] (by simp) rfl rfl (fun t ht hc => ⟨t, ht, hc⟩) h0)
+  | cancelOlder h v => exact key _ (Ord.quiet (w := { n := n, spi := spi }) [] (by simp) rfl rfl rfl (fun t ht hc => ⟨t, ht, hc⟩) h0)
+  | shutdownCtx => exact key _ (Ord.quiet (w := { n := n, spi := spi }) [] (by simp) rfl rfl rfl (fun t ht hc => ⟨t, ht, hc⟩) h0)
 
 theorem run_ord {TI : Term.Node → Prop} (hT : C08.TermInv TI) (fuel : Nat) (es : List (WEvent × List WSpi)) :
     ∀ (H : List WOut) (n : WNode), C08.WInv TI n → Ord H { n := n } →
@@ -705,9 +736,50 @@ callback of that height followed by its commit callback. -/
 theorem callbacks_ordered (fuel me inst : Nat) (es : List (WEvent × List WSpi)) :
     (cbEvents (runOuts fuel ({ me := me, inst := inst } : WNode) es).2).Pairwise Before := by
   have h0 : Ord [] ({ n := { me := me, inst := inst } } : WW) :=
-    ⟨List.Pairwise.nil, (by intro x hx; cases hx), (by intro hx; cases hx)⟩
+    ⟨List.Pairwise.nil, (by intro x hx; cases hx), (by intro hx; cases hx), (by intro hx; cases hx), (by intro _ hx; cases hx)⟩
   have := (run_ord C08.logClean_termInv fuel es [] _ (C08.winv_init Term.LogClean me inst) h0).ordered
   simpa using this
+
+/-- **Every commit callback is preceded by the new-round callback of its height**: over every execution, a
+commit callback for height `h` only happens in a round that was reported to the consumer, and the report
+came first. -/
+theorem commit_preceded_by_round (fuel me inst : Nat) (es : List (WEvent × List WSpi))
+    (pre post : List WOut) (b : Block) (ref : BlockRef) (signers : List SSig)
+    (hsplit : (runOuts fuel ({ me := me, inst := inst } : WNode) es).2 = pre ++ WOut.commitCb b ref signers :: post) :
+    ∃ c, WOut.newRound ref.height c ∈ pre := by
+  have h0 : Ord [] ({ n := { me := me, inst := inst } } : WW) :=
+    ⟨List.Pairwise.nil, (by intro x hx; cases hx), (by intro hx; cases hx), (by intro hx; cases hx), (by intro _ hx; cases hx)⟩
+  have hord := run_ord C08.logClean_termInv fuel es [] _ (C08.winv_init Term.LogClean me inst) h0
+  have hp : (cbEvents (runOuts fuel ({ me := me, inst := inst } : WNode) es).2).Pairwise Before := by simpa using hord.ordered
+  have hcr : (false, ref.height) ∈ cbEvents (runOuts fuel ({ me := me, inst := inst } : WNode) es).2 := by
+    have := hord.commitRound ref.height (by
+      show (true, ref.height) ∈ cbEvents ([] ++ (runOuts fuel ({ me := me, inst := inst } : WNode) es).2 ++ [])
+      rw [List.append_nil, List.nil_append, hsplit, cbEvents_append]
+      exact List.mem_append_right _ (List.mem_cons_self ..))
+    simpa using this
+  rw [hsplit, cbEvents_append] at hp hcr
+  have hc : cbEvents (WOut.commitCb b ref signers :: post) = (true, ref.height) :: cbEvents post := rfl
+  rw [hc] at hp hcr
+  rcases List.mem_append.mp hcr with hin | hin
+  · -- it is among the callbacks before the commit
+    unfold cbEvents at hin
+    obtain ⟨o, ho, hk⟩ := List.mem_filterMap.mp hin
+    cases o with
+    | newRound h' c' =>
+      simp only [cbOf, Option.some.injEq, Prod.mk.injEq] at hk
+      exact ⟨c', by rw [← hk.2]; exact ho⟩
+    | commitCb _ _ _ => simp [cbOf] at hk
+    | term _ => simp [cbOf] at hk
+    | stopTimer => simp [cbOf] at hk
+  · -- it cannot come after the commit of the same height
+    exfalso
+    rcases List.mem_cons.mp hin with he | hin'
+    · cases he
+    · have hpw := (List.pairwise_append.mp hp).2.1
+      rw [List.pairwise_cons] at hpw
+      rcases hpw.1 _ hin' with hlt | ⟨h1, _, _⟩
+      · exact Nat.lt_irrefl _ hlt
+      · cases h1
 
 /-- heights of the commit callbacks (read off the certificates), in order -/
 def commitHeights (outs : List WOut) : List Nat :=
